@@ -50,10 +50,11 @@ def _crash_site(out):
     tail = out[m.start():]
     g = re.search(r"^goroutine \d+ \[running[^\]]*\]:\n((?:.*\n)+?)(?:\n|\Z)", tail, re.M)
     block = g.group(1) if g else tail
-    frames = re.findall(r"^(\S.*?)(?:\(.*\))?\n\t(\S+?):(\d+)", block, re.M)
+    frames = re.findall(r"^(\S.*)\n\t(\S+?):(\d+)", block, re.M)
     for fn, path, line in frames:
         if "gocql" not in fn:
             continue                      # runtime, sync, testing ...
+        fn = re.sub(r"\([^()]*\)$", "", fn)   # the argument list
         base = os.path.basename(path)
         fn = fn.split("gocql/gocql.")[-1].split("gocql.")[-1]
         if base.startswith("zz_vf_"):
@@ -130,13 +131,20 @@ def run(ctx):
 
     # ---- 1. model pass: every interleaving of consumer, prefetch goroutine and node, every bounded scenario
     dev = bool(os.environ.get("VF_C15_DEV"))   # development only: small model pass (the evidence says so)
-    mc = vf.tlc_must_pass(ctx, "MC_Paging", "MC_Paging_live.cfg" if dev else "MC_Paging_full.cfg", workers=4 if dev else None,
-                          timeout=900, heap="6g", deadlock=False, name="mc_full")
-    live = vf.tlc_must_pass(ctx, "MC_Paging", "MC_Paging_live.cfg" if quick else "MC_Paging_livefull.cfg", workers=4 if dev else None,
-                            timeout=1500, heap="6g", deadlock=False, name="mc_live")
-    # the same Query value executed again (after complete / abandoned iterations): safety + termination
-    rex = vf.tlc_must_pass(ctx, "MC_Paging", "MC_Paging_reexec.cfg", workers=4 if dev else None, timeout=1500, heap="6g",
-                           deadlock=False, name="mc_reexec")
+    # the three model passes are independent: side by side (each is partly serial), the Go build meanwhile
+    vf._scratch_spec_dir(ctx, "w")
+    half = 4 if dev else max(4, vf.NCPU // 2)
+    with cf.ThreadPoolExecutor(4) as ex:
+        f_mc = ex.submit(vf.tlc_must_pass, ctx, "MC_Paging", "MC_Paging_live.cfg" if dev else "MC_Paging_full.cfg", workers=half,
+                         timeout=900, heap="6g", deadlock=False, name="mc_full")
+        f_live = ex.submit(vf.tlc_must_pass, ctx, "MC_Paging", "MC_Paging_live.cfg" if quick else "MC_Paging_livefull.cfg",
+                           workers=4 if quick else half, timeout=1500, heap="6g", deadlock=False, name="mc_live")
+        # the same Query value executed again (after complete / abandoned iterations): safety + termination
+        f_rex = ex.submit(vf.tlc_must_pass, ctx, "MC_Paging", "MC_Paging_reexec.cfg", workers=half, timeout=1500, heap="6g",
+                          deadlock=False, name="mc_reexec")
+        f_build = ex.submit(vf.build_gotest, ctx, ".", ["common", "c15"])
+        mc, live, rex = f_mc.result(), f_live.result(), f_rex.result()
+        f_build.result()
     if dev:
         ctx.notes.append("VF_C15_DEV set: the exhaustive model pass ran with the small bounds only")
     states, trans = mc.distinct + live.distinct + rex.distinct, mc.generated + live.generated + rex.generated
